@@ -1,5 +1,5 @@
 #!/usr/bin/env python3
-"""ktx_glue — source-level translator for the *stateful glue* of /repo/src (buffering, padding, length encoding,
+r"""ktx_glue — source-level translator for the *stateful glue* of /repo/src (buffering, padding, length encoding,
 data-dependent loops): imperative Rust  ->  Lean functions in the Option monad, in the shape of the hand models
 (`lean/CxVerif/Impl/*.lean`): state structure in, state structure out.  Used by kernel spec modules
 tools/kernels/glue_*.py through `TRANSLATE = ktx_glue.translate` (see kernel_translate.generate_all()); the output
@@ -31,8 +31,10 @@ MEANING GIVEN TO RUST (the run-time library is lean/CxVerif/Util/GlueRt.lean, na
               writes go to the place; range bounds are frozen at creation).  `&mut b[lo..hi]` passed to a callee:
               read the slice, call, write the result back.
   closures    a parameter `F: FnMut(&[u8])` is a pair `(func : σ → Bytes → Option σ) (st : σ)`; `func(x)` threads
-              `st`.  A closure literal `|x| body` may mutate exactly ONE captured place; it becomes
-              `fun s x => body[place := s]` and the place is the initial/updated state.
+              `st`.  A closure literal `|x| body` may mutate captured state under ONE variable; the smallest place
+              containing everything it mutates (e.g. `self.state`) is abstracted: `fun s x => body[place := s]`, the
+              place is the initial state and receives the final one.  A one-call body is an inline `fun`, a longer
+              one becomes `<fn>_src_c<n>` over the variables it reads.
   returns     `fn f(&mut self) -> &mut [T; I]` (mode="write"): translated as `f_write_src … (v : List T)`, the state
               after the body with `v` stored through the returned place; call sites `*x.f() = e;` and (for I = 1)
               `x.f()[0] = e;` use it.  `-> &[T; N]` returns a copy of the value.
@@ -49,12 +51,21 @@ MEANING GIVEN TO RUST (the run-time library is lean/CxVerif/Util/GlueRt.lean, na
               raw-pointer cursor loops (`read_array_type!`): `let mut x: *mut T = a.get_unchecked_mut(0)` is a cursor
               (a, 0); `x = x.add(k)`; `*x = e` = `a[i] = e` (checked); `ptr::copy_nonoverlapping(y, &mut tmp as …, n)`
               = `tmp = y.array[i..i+n]` (checked; `tmp` must be an `[u8; n]`).
-  macros      functions defined through an item-level `macro_rules!` invocation (`write_array_type!(name, T, F)`) are
-              expanded first (spec: `macro="write_array_type"`).
+  macros      functions / structs defined through an item-level `macro_rules!` invocation are expanded first, nested
+              invocations of the same macro included (spec: `macro="write_array_type"` — invocation found by the fn
+              name —, or `macro="digest", macro_args=r"256\s+Sha256\s*,"`); `assert!`, `assert_eq!`, `assert_ne!`
+              are checks; other macros inside bodies are refused.
+  other       struct literals `S { f: e, … }` / `Self { … }` (all fields, checked against the declaration), `[c; n]`
+              (`Glue.fill`; an unsuffixed `[0; n]` without annotation needs `untyped_array_elem` in the spec), array
+              literals, `if c { a } else { b }` as a pure value, `match` ONLY as
+              `match <&mut [T; n]>::try_from(PLACE) { Ok(x) => …, Err(_) => <diverges> }`, `to_be_bytes/to_le_bytes`
+              (`u32be`, `u64le`, `natToBE n`, …), `uN::from_be_bytes/from_le_bytes`, `.len()`, `.iter()` (in `for`),
+              `wrapping_add/sub/mul` on words; callees are other kernels of the same spec (translated first) or
+              `Extern`s named by the spec (functions tied elsewhere, e.g. the compression function).
   consts      `const X: usize = e;` looked up by name in the kernel's file and inlined as the translated initialiser;
               `size_of::<uN>()`.
 Anything else raises TranslateError (-> broken extraction): nothing is skipped silently except attributes, `use`
-items and visibility.  NOT modelled (trusted): that `usize` `+`/`*` do not overflow (all such values are slice
+items, visibility and nested `fn` items (translated when they are kernels of their own).  NOT modelled (trusted): that `usize` `+`/`*` do not overflow (all such values are slice
 lengths / array sizes), allocation, `Clone`, memory safety of the `unsafe` idioms beyond the range checks above.
 """
 import copy
@@ -383,10 +394,12 @@ class GlueCfg:
         self.custom_types = kw.get("custom_types", {})
         self.nat_fields = set(kw.get("nat_fields", ()))
         self.externs = kw.get("externs", {})
+        self.untyped_array_elem = kw.get("untyped_array_elem")   # element type of `[0; n]` literals without annotation
         self.consts = kw.get("consts", {})
         self.fns = {}            # (type key | None, fn name) -> FnInfo   (filled as kernels are translated)
         self._fields = {}
         self._src = {}
+        self._expanded = {}
 
     def src(self, f):
         if f not in self._src:
@@ -416,7 +429,8 @@ class GK:
         self.file = kw["file"]; self.fn = kw["fn"]; self.scope = kw.get("scope")
         self.impl = kw.get("impl"); self.impl_generics = kw.get("impl_generics", [])
         self.lean_name = kw["lean_name"]; self.mode = kw.get("mode", "fn")
-        self.macro = kw.get("macro"); self.fuel = kw.get("fuel", {}); self.externs = kw.get("externs", {})
+        self.macro = kw.get("macro"); self.macro_args = kw.get("macro_args"); self.fuel = kw.get("fuel", {}); self.externs = kw.get("externs", {})
+        self.untyped_array_elem = kw.get("untyped_array_elem")   # element type of `[0; n]` literals without annotation
         self.doc = kw.get("doc", ""); self.key = kw.get("key", (self.impl, self.fn))
         self.params = ""         # (for the fallback definition of kernel_translate.generate_all)
         self.kind = "fn"
@@ -426,10 +440,10 @@ class GStruct:
     """re-derive the field list of a Rust struct and emit `<Lean>.mk_src`, a constructor with NAMED fields: a field
     added / removed / renamed / retyped in the source no longer elaborates against the hand model's structure"""
 
-    def __init__(self, cfg, key):
+    def __init__(self, cfg, key, lean_name=None):
         self.cfg, self.key = cfg, key
         parts = cfg.structs[key]["lean"].split(".")
-        self.lean_name = ".".join(parts[1:] if len(parts) > 1 else parts) + ".mk_src"
+        self.lean_name = lean_name or ".".join(parts[1:] if len(parts) > 1 else parts) + ".mk_src"
         self.params = ""
         self.kind = "struct"
 
@@ -1104,7 +1118,12 @@ class Tr:
         if k == "repeat":
             ety = want[1] if want is not None and want[0] == "list" else None
             c = self.ev(e[1], env, items, ety)
-            c = self.coerce(c, ety or ("word", 8))
+            if c.ty is None and ety is None:
+                dflt = self.k.untyped_array_elem
+                if dflt is None:
+                    raise TranslateError("`[lit; n]` with an unsuffixed literal and no type annotation: name `untyped_array_elem` in the kernel spec")
+                ety = self.int_ty(dflt)
+            c = self.coerce(c, ety)
             n = self.ev(e[2], env, items, T_NAT)
             return V(f"Glue.fill {n.p()} {c.p()}", ("list", c.ty))
         if k == "array":
@@ -2186,28 +2205,8 @@ class Tr:
         k = self.k
         text = self.cfg.src(k.file)
         if k.macro:
-            m = re.search(r"\b" + re.escape(k.macro) + r"\s*!\s*\(\s*" + re.escape(k.fn) + r"\s*,", text)
-            if not m:
-                raise TranslateError(f"invocation {k.macro}!({k.fn}, …) not found in {k.file}")
-            j = text.index("(", m.start())
-            end = KW.Sources.balanced(text, j)
-            args = lex(text[j + 1:end - 1])
-            md = re.search(r"\bmacro_rules\s*!\s*" + re.escape(k.macro) + r"\s*([\(\[\{])", text)
-            if not md:
-                raise TranslateError(f"macro {k.macro} not found")
-            mend = KW.Sources.balanced(text, md.end() - 1)
-            mac = KW.Macro(k.macro, lex(text[md.end() - 1:mend]))
-            for pat, body in mac.rules:
-                r = mac.match(pat, args, 0)
-                if r is not None:
-                    toks = mac.transcribe(body, r[0], 1, set())
-                    break
-            else:
-                raise TranslateError(f"macro {k.macro}!: no rule matches")
-            text = toks_text(toks)
-            hdr, body = find_fn(text, k.fn)
-        else:
-            hdr, body = find_fn(text, k.fn, k.scope)
+            text = expand_item_macro(self.cfg, k.file, k.macro, k.macro_args or (re.escape(k.fn) + r"\s*,"))
+        hdr, body = find_fn(text, k.fn, k.scope)
         return hdr, lex(body)
 
     def run(self):
@@ -2327,10 +2326,63 @@ class Tr:
         return ("struct", self.k.impl, tuple((g, g) for g in sd.get("generics", [])))
 
 
+
+def untok(toks):
+    return " ".join(f"{t[1]}{t[2] or ''}" if t[0] == "int" else str(t[1]) for t in toks)   # (literal suffixes kept)
+
+
+def expand_item_macro(cfg, file, macro, args_re):
+    """text of the items an item-level invocation `macro!(<args matching args_re> …)` expands to (nested invocations
+    of the same macro — `digest!(@internal …)` — are expanded too)"""
+    key = (file, macro, args_re)
+    if key in cfg._expanded:
+        return cfg._expanded[key]
+    text = cfg.src(file)
+    ms = list(re.finditer(r"\b" + re.escape(macro) + r"\s*!\s*\(\s*" + args_re, text))
+    if len(ms) != 1:
+        raise TranslateError(f"invocation {macro}!({args_re} …): {len(ms)} matches in {file}")
+    j = text.index("(", ms[0].start())
+    end = KW.Sources.balanced(text, j)
+    md = re.search(r"\bmacro_rules\s*!\s*" + re.escape(macro) + r"\s*([\(\[\{])", text)
+    if not md:
+        raise TranslateError(f"macro {macro} not found in {file}")
+    mend = KW.Sources.balanced(text, md.end() - 1)
+    mac = KW.Macro(macro, lex(text[md.end() - 1:mend]))
+
+    def expand(args, depth):
+        if depth > 8:
+            raise TranslateError("macro recursion")
+        for pat, body in mac.rules:
+            r = mac.match(pat, args, 0)
+            if r is not None:
+                toks = mac.transcribe(body, r[0], 1, set())
+                break
+        else:
+            raise TranslateError(f"macro {macro}!: no rule matches")
+        out, i = [], 0
+        while i < len(toks):
+            t = toks[i]
+            if t[0] == "id" and t[1] == macro and i + 2 < len(toks) and isop(toks[i + 1], "!") and isop(toks[i + 2], "(", "[", "{"):
+                c = match_close(toks, i + 2)
+                out += expand(toks[i + 3:c], depth + 1)
+                i = c + 1
+                if i < len(toks) and isop(toks[i], ";"):
+                    i += 1
+                continue
+            out.append(t)
+            i += 1
+        return out
+    res = untok(expand(lex(text[j + 1:end - 1]), 0))
+    cfg._expanded[key] = res
+    return res
+
+
 def struct_decl(cfg, key):
     """[(field, type ast)] of the Rust struct declaration"""
     sd = cfg.structs[key]
     text = cfg.src(sd["file"])
+    if sd.get("macro"):
+        text = expand_item_macro(cfg, sd["file"], sd["macro"], sd["macro_args"])
     rust = sd.get("rust", key.split("::")[-1])
     ms = list(re.finditer(r"\bstruct\s+" + re.escape(rust) + r"\b[^{;(]*\{", text))
     if len(ms) != 1:
@@ -2372,3 +2424,81 @@ def translate(k):
     if getattr(k, "kind", "fn") == "struct":
         return translate_struct(k)
     return Tr(k).run()
+
+
+# ------------------------------------------------------------------------------------------------------ self test
+
+SELFTEST_SRC = r'''
+pub struct Stage { total: usize, buf: [u8; 8], idx: usize, flag: bool }
+impl Stage {
+    // joined if/else without failure, && condition, bool store
+    pub fn bump(&mut self, n: usize) {
+        if n > 3 && self.idx < 8 { self.total += n; } else { self.total = self.total * 2; }
+        self.flag = n == 0;
+    }
+    // data-dependent while loop (fuel), slice re-binding, element access
+    pub fn drain(&mut self, data: &[u8]) -> usize {
+        let mut m = data;
+        let mut k = 0;
+        while m.len() >= 2 {
+            self.buf[self.idx] = m[1];
+            self.idx += 1;
+            m = &m[2..];
+            k += 1;
+        }
+        k
+    }
+    pub fn bad_break(&mut self) { for i in 0..4 { if i == 2 { break; } } }
+    pub fn bad_word_add(&mut self, a: u32, b: u32) -> u32 { a + b }
+    pub fn bad_while(&mut self) { while self.idx < 4 { self.idx += 1; } }
+    pub fn bad_return_in_loop(&mut self) { for i in 0..4 { if i == self.idx { return; } } }
+    pub fn bad_method(&mut self, d: &[u8]) -> usize { d.iter().count() }
+    pub fn bad_question(&mut self, d: &[u8]) { let x = foo(d)?; }
+    pub fn two_fields(&mut self, d: &[u8]) { each(d, |x| { self.idx += 1; self.total += x.len(); }); }
+    pub fn bad_two_roots(&mut self, d: &[u8]) { let mut c = 0; each(d, |x| { self.idx += 1; c += 1; }); }
+}
+pub fn each<F: FnMut(&[u8])>(d: &[u8], mut f: F) { f(d); }
+'''
+
+
+def selftest(lean=False):
+    """positive: synthetic glue + (if /repo has it) Poly1305::input translate; negative: unsupported Rust raises"""
+    F = "selftest.rs"
+    cfg = GlueCfg(structs={"Stage": dict(lean="Stage", file=F)})
+    cfg._src[F] = strip_comments(SELFTEST_SRC)
+    base = dict(file=F, scope=r"impl Stage \{", impl="Stage")
+    out = [translate(GStruct(cfg, "Stage"))]
+    out.append(translate(GK(cfg, fn="each", file=F, lean_name="each_src")))
+    for fn, kw in (("bump", {}), ("drain", {"fuel": {1: "data.len()"}}), ("two_fields", {})):
+        out.append(translate(GK(cfg, fn=fn, lean_name=f"Stage.{fn}_src", **base, **kw)))
+    bad = 0
+    for fn in ("bad_break", "bad_word_add", "bad_while", "bad_return_in_loop", "bad_method", "bad_question", "bad_two_roots"):
+        try:
+            translate(GK(cfg, fn=fn, lean_name=f"Stage.{fn}_src", **base))
+            print(f"SELFTEST FAIL: {fn} was translated")
+            bad += 1
+        except TranslateError as e:
+            print(f"ok  refused {fn}: {e}")
+    text = ("import CxVerif.Util.GlueRt\nimport CxVerif.Util.Bytes\nopen Cx\n"
+            "structure Stage where\n  total : Nat\n  buf : Bytes\n  idx : Nat\n  flag : Bool\n\n" + "\n".join(out))
+    if lean:
+        import subprocess
+        import tempfile
+        d = os.path.join(os.path.dirname(os.path.dirname(os.path.abspath(__file__))), "lean")
+        with tempfile.NamedTemporaryFile("w", suffix=".lean", delete=False) as f:
+            f.write(text)
+        p = subprocess.run(["lake", "env", "lean", f.name], cwd=d, stdout=subprocess.PIPE, stderr=subprocess.STDOUT, text=True)
+        os.unlink(f.name)
+        if p.returncode != 0:
+            print("SELFTEST FAIL: Lean rejects the positive translations\n" + p.stdout[-3000:])
+            bad += 1
+        else:
+            print("ok  Lean accepts the positive translations")
+    else:
+        print(text)
+    return bad
+
+
+if __name__ == "__main__":
+    import sys
+    sys.exit(1 if selftest("--lean" in sys.argv) else 0)
